@@ -129,7 +129,10 @@ def history(rng, length):
         for o in ops:
             if o['op'] in oracles.MAPS and not o.get('fail') and 'consume' not in o and not o.get('expect_rejected') and rng.random() < .5:
                 o['init'] = o['exit'] = True
-    return {'seed': rng.randint(0, 10 ** 6), 'pool': pool, 'ops': ops, 'model_ops': mops, 'latency_bound': 5.0, 'same_func': rng.random() < .5,
+    # (one function object for all calls is only used when no lazy call stays open: the harness' function finds out which call it
+    # is running for from the operation that is current, and tasks of an open call can still be running during a later operation)
+    return {'seed': rng.randint(0, 10 ** 6), 'pool': pool, 'ops': ops, 'model_ops': mops, 'latency_bound': 5.0,
+            'same_func': rng.random() < .5 and not any(':open:' in m for m in mops),
             'relax_shape': any(o['op'] == 'apply_batch' for o in ops)}
 
 
@@ -196,6 +199,8 @@ def kill_judge(chk, sc, o):
 
 
 def snap_tok(c):
+    if any(c.get(k) is None for k in ('n_workers', 'initialized', 'map_running', 'keep_order', 'exception_thrown')):
+        return 'unreadable control state: %s' % sorted(k for k, v in c.items() if v is None)
     return 'w=%s init=%d run=%d ko=%d exc=%d' % ('+' if c['n_workers'] else '-', c['initialized'], c['map_running'], c['keep_order'], c['exception_thrown'])
 
 
@@ -263,11 +268,11 @@ def run(chk):
             elif sc['ops'][opi]['op'] in oracles.MAPS and not sc['ops'][opi].get('expect_rejected') and f['run'] == '0':
                 dirty = False
             if ok and f['run'] == '0' and not dirty:
-                ok = ((oo['control']['task_idx'] or 0) == int(f['ti'])) and (len(oo['control']['last_completed']) == int(f['lc']))
+                ok = ((oo['control']['task_idx'] or 0) == int(f['ti'])) and (len(oo['control']['last_completed'] or []) == int(f['lc']))
             if not ok:
                 chk.mismatch('control state after operation %d differs from Mpire.History' % opi,
                              {'scenario': sc, 'op_index': opi, 'model_ops': sc['model_ops'][:opi + 1]},
-                             it + ' ti=%s lc=%d' % (oo['control']['task_idx'], len(oo['control']['last_completed'])), m)
+                             it + ' ti=%s lc=%d' % (oo['control']['task_idx'], len(oo['control']['last_completed'] or [])), m)
                 break
         # a failed call must surface its own error, never a foreign one; later successful calls are checked by the C01/C02 oracles above
         for opi, (op, oo) in enumerate(zip(sc['ops'], o['ops'])):
